@@ -139,6 +139,9 @@ CHECKS["C15"] = {
     "assumptions": ["bridge length is not NaN and not -0.0 (the statement says 'negative length'; is_sign_negative() flags -0.0 - recorded as an observation, not a finding)"],
     "outside": ["warning texts", "'the warnings returned with the indicators are the checker's' (EnergyIndicators::compute reads the climate statics)", "more than 2 walls / 2 windows / 2 bridges"],
     "harnesses": [
+        {"name": "c15::check_wall_space", "witness": True, "bound": "1 wall; space link in {valid a, valid b, nil, absent}, other links valid; boundary kind symbolic; warning read back", "kani_args": NOOVF, "cbmc_args": FS2K, "stubs": FMT, "functions": ["bemodel::check"]},
+        {"name": "c15::check_wall_cons", "witness": True, "bound": "1 wall; construction link in {valid, nil, absent}, other links valid; warning read back", "kani_args": NOOVF, "cbmc_args": FS2K, "stubs": FMT, "functions": ["bemodel::check"]},
+        {"name": "c15::check_wall_next", "witness": True, "bound": "1 wall; adjacent space in {none, valid a, valid b, nil, absent}, other links valid; warning read back", "kani_args": NOOVF, "cbmc_args": FS2K, "stubs": FMT, "functions": ["bemodel::check"]},
         {"name": "c15::check_wall_first", "tier": "thorough", "timeout_thorough": 2700, "mem_gb": 24, "bound": "1 wall, 1 space, 1 construction; space, construction and adjacent-space links in {valid, nil, absent}; exact count; id and level of the first warning read back", "kani_args": NOOVF, "cbmc_args": FS2K, "stubs": FMT, "functions": ["bemodel::check"]},
         {"name": "c15::check_win", "bound": "1 window; wall and construction links symbolic; ids read back", "kani_args": NOOVF, "cbmc_args": FS2K, "stubs": FMT, "functions": ["bemodel::check"]},
         {"name": "c15::check_tb", "bound": "2 bridges, any f32 length except NaN/-0.0; ids read back", "kani_args": NOOVF, "cbmc_args": FS2K, "stubs": FMT, "functions": ["bemodel::check"]},
